@@ -832,6 +832,17 @@ def run(ctx):
     if ctx.prop == "C06" and not getattr(ctx, "_sharing", False):
         from .common import share
         share(ctx, "C07", ("R07.6", "R07.9"), "R06.10", "forwarding / width obligations shared with C07", 4)
+        ctx.rule("R06.14", "whole-container assignment builds its temporary with the copy / move / (capacity, list) constructor in every instantiation (R07.11 re-evaluated): "
+                           "a temporary built by the initializer_list constructor has another size and capacity than the source - the target exposes elements nobody stored")
+        share(ctx, "C07", ("R07.11",), "R06.14", "temporaries of the assignment operators, shared with C07", 6)
+    # ---- R06.15 (type level): the index / size types are as wide as std::size_t
+    ctx.rule("R06.15", "index-width (type-level witnesses, witness/tl_C06.cpp): size_type holds every std::size_t, size() / capacity() report in that width - an index is never cut before the bounds check sees it")
+    import os as _os
+    from sa import witness as _witness
+    from sa.extract import VERIF as _VERIF
+    _witness.apply(ctx, lambda t: "R06.15", _os.path.join(_VERIF, "witness", "tl_C06.cpp"))
+    if ctx.tier == "thorough":
+        _witness.apply(ctx, lambda t: "R06.15", _os.path.join(_VERIF, "witness", "tl_C06.cpp"), compiler="g++", label="g++ gnu++17")
     _noexcept_elements(ctx)
     ctx.rule("R06.12", "no catch handler in fixed_vector lets an exception vanish: an operation that cannot be satisfied, or an element whose copy / move throws, is reported to the caller")
     from .common import rule_handlers
